@@ -437,6 +437,20 @@ func genConnect(r *core.Rand, pr Profile, tls bool) string {
 	return strings.TrimSpace(fmt.Sprintf("cmitm tls=%s rq=%s rs=%s %s", b01(tls), rq, rs, strings.Join(errKinds(r, rq, rs), " "))) + ed
 }
 
+// GenNoCallbackCase: a proxy whose MITM configuration has had its handshake error callback cleared
+// (SetHandshakeErrorCallback(nil)), and a client whose TLS handshake inside the tunnel fails; the failed
+// handshake is the last thing the client does on the connection. Whatever the client sends, the proxy
+// process must survive it (C03) - the following cases run in the same process.
+func GenNoCallbackCase(r *core.Rand, pr Profile) []string {
+	listener := r.Pick("mitm", "mitm", "shapedmitm")
+	ops := []string{"conn mode=seq listener=" + listener + " shutdown=0 hscb=nil"}
+	if r.Chance(1, 3) {
+		ops = append(ops, genX(r, pr, false, true))
+	}
+	core.Count("nocallback:generated")
+	return append(ops, "cmitm tls=1 rq=pass rs=pass hf="+HandshakeFailKinds[r.Intn(len(HandshakeFailKinds))])
+}
+
 // genFailedConnect: a MITM CONNECT whose tunnel starts with a TLS handshake that fails (hsfail.go).
 func genFailedConnect(r *core.Rand, pr Profile) string {
 	return genConnect(r, pr, true) + " hf=" + HandshakeFailKinds[r.Intn(len(HandshakeFailKinds))]
@@ -489,6 +503,9 @@ func GenCase(r *core.Rand, pr Profile) []string {
 	}
 	if (pr.Rich || pr.Tunnels) && r.Chance(1, 60) {
 		return GenHalfCloseCase(r, pr)
+	}
+	if pr.Tunnels && r.Chance(1, 40) {
+		return GenNoCallbackCase(r, pr)
 	}
 	if pr.Tunnels && !pr.Faults && r.Chance(1, 400) {
 		return GenBusyCase(r, r.Pick("mitm", "shapedmitm", "tls", "plain"))
